@@ -11,6 +11,32 @@ from core.ctx import REPO
 from props import _crash_fsfault as F
 
 ID = "C24"
+LEAN_MODULES = ["NiftyVerif.Props.C24"]
+DRIVER = "Driver/C24.lean"
+OBLIGATIONS = ["NiftyVerif.C24." + t for t in (
+    "never_unresumable", "crash_safe", "crash_safe_single", "final_files", "natSys_lawful",
+    "inplace_not_crash_safe", "inplace_witness")]
+RULE = ("case = (model configuration, sequence of kill points); kill points are enumerated in the MODEL's byte-granular "
+        "operation sequence (every op boundary and every position inside a write) and mapped to the real run "
+        "(before op / partial write with the same fraction); non-trivial = at least one kill strictly inside the "
+        "run; distinct by (cfg, kills)")
+TRUSTED_BASE = [
+    "Lean 4.33 kernel; axioms propext/Classical.choice/Quot.sound only (audited every run)",
+    "hand-written model Model/CrashRe.lean of optimize_kl's file protocol and resume logic, tied by (a) equality of the "
+    "recorded real op sequence with the model's, for the first and every resumed run, (b) equality of the directory "
+    "content class (absent/empty/partial/complete:i per file, minisanity tokens) after every kill, (c) resumed-from "
+    "iteration = number of OptimizeVI.update calls of the resumed process, (d) read-set of the resumed run",
+    "Lawful: update increments nit; pickle.load(pickle.dump(x)) == x bitwise for (samples, state) — observed by the "
+    "oracle (bitwise equal final pickle), not proved",
+    "fault injector harness/props/_crash_fsfault.py: kill = os._exit inside the real process; write() calls are flushed "
+    "at once, so a file holds all completed writes plus a prefix of the interrupted one",
+]
+ASSUMPTIONS = [
+    "a crash is a process kill; power loss (unsynced data after close) is outside the model",
+    "OptimizeVI.update is a deterministic function of (samples, state) on this platform (CPU, fixed thread count)",
+    "os.replace is atomic (POSIX rename)",
+    "the restarted call gets the same arguments (likelihood, position, key, n_total_iterations) as the killed one",
+]
 
 
 # ------------------------------------------------------------------------------------------------ worker (subprocess)
@@ -18,6 +44,10 @@ def worker(args):
     """runs in a fresh process under the fault injector: the REAL nifty.re.optimize_kl on a tiny model"""
     import jax
     jax.config.update("jax_enable_x64", True)
+    if args.get("jcache"):  # persistent compilation cache: the processes differ only in where they are killed
+        jax.config.update("jax_compilation_cache_dir", args["jcache"])
+        jax.config.update("jax_persistent_cache_min_compile_time_secs", 0)
+        jax.config.update("jax_persistent_cache_min_entry_size_bytes", -1)
     import jax.numpy as jnp
     import nifty.re as jft
     import sys
@@ -44,12 +74,20 @@ def worker(args):
         n_upd[0] += 1
         return orig_update(self, samples, state, **kw)
     okl.OptimizeVI.update = counting_update
+    callback = None
+    if args.get("copy_to"):
+        import shutil as _sh
+
+        def callback(samples, st):  # reference run only: keep every iteration's files (outside odir)
+            for fn in ("last.pkl", "minisanity.txt"):
+                _sh.copyfile(os.path.join(args["odir"], fn), os.path.join(args["copy_to"], f"{int(st.nit)}.{fn}"))
     s, st = jft.optimize_kl(
         lh, pos, key=k2, n_total_iterations=int(args["n"]), n_samples=int(args.get("n_samples", 1)),
         draw_linear_kwargs=dict(cg_name=None, cg_kwargs=dict(absdelta=1e-8, maxiter=10)),
         nonlinearly_update_kwargs=dict(minimize_kwargs=dict(name=None, xtol=1e-4, cg_kwargs=dict(name=None), maxiter=3)),
         kl_kwargs=dict(minimize_kwargs=dict(name=None, xtol=1e-4, cg_kwargs=dict(name=None), maxiter=4)),
-        sample_mode=args.get("sample_mode", "nonlinear_resample"), odir=args["odir"], resume=bool(args["resume"]))
+        sample_mode=args.get("sample_mode", "nonlinear_resample"), odir=args["odir"], resume=bool(args["resume"]),
+        callback=callback)
     blob = pickle.dumps((s, st._replace(config={})))
     import numpy as np
     leaves = [np.asarray(x).tobytes() for x in jax.tree_util.tree_leaves((s.pos, s._samples, st.key))]
@@ -57,3 +95,379 @@ def worker(args):
                nit=int(st.nit), updates=n_upd[0])
     with open(args["result"], "w") as fh:
         json.dump(res, fh)
+
+
+# ------------------------------------------------------------------------------------------------ harness side
+_WORK = None
+_REF = {}
+_POOL = None
+
+
+def _pool():
+    global _POOL
+    if _POOL is None:
+        _POOL = F.Pool(int(os.environ.get("VERIF_WORKERS", "8")), preload=("jax", "jax.numpy", "numpy", "scipy.sparse.linalg"),
+                       env={"NIFTY_REPO": REPO})
+    return _POOL
+
+
+def _cleanup():
+    if _POOL is not None:
+        _POOL.close()
+    if _WORK and not os.environ.get("VERIF_KEEP"):
+        shutil.rmtree(_WORK, ignore_errors=True)
+
+
+def _work():
+    global _WORK
+    if _WORK is None:
+        import atexit
+        _WORK = tempfile.mkdtemp(prefix="c24_")
+        atexit.register(_cleanup)
+    return _WORK
+
+
+def _cfgkey(cfg):
+    return json.dumps(cfg, sort_keys=True)
+
+
+def _run(tag, odir, cfg, resume, kill=None, copy_to=None):
+    """one real process. kill = None | dict(at=real op index, when=…, frac=[p,q]).
+    -> dict(rc, err, res, ops, queries, killed)"""
+    w = _work()
+    log = os.path.join(w, tag + ".log")
+    resf = os.path.join(w, tag + ".res")
+    for f in (log, resf, log + ".err"):
+        if os.path.exists(f):
+            os.unlink(f)
+    os.makedirs(os.path.dirname(odir), exist_ok=True)
+    job = dict(root=odir, log=log, target="props.c24:worker", repo=REPO,
+               kill_at=None if kill is None else kill["at"], when=(kill or {}).get("when", "before"),
+               frac=(kill or {}).get("frac", [1, 2]),
+               args=dict(cfg, odir=odir, resume=resume, result=resf, copy_to=copy_to))
+    job["args"]["jcache"] = os.path.join(w, "jax_cache")
+    rc, err = _pool().run(job, timeout=900)
+    ops, qs, killed = F.read_log(log)
+    res = json.load(open(resf)) if os.path.exists(resf) else None
+    e = json.load(open(log + ".err")) if os.path.exists(log + ".err") else None
+    return dict(rc=rc, err=err, res=res, ops=ops, queries=qs, killed=killed, exc=e)
+
+
+def _reference(cfg):
+    """uninterrupted run (recorded, per-iteration copies of the files) — cached per configuration"""
+    key = _cfgkey(cfg)
+    if key in _REF:
+        return _REF[key]
+    w = _work()
+    tag = "ref_" + hashlib.sha1(key.encode()).hexdigest()[:8]
+    cp = os.path.join(w, tag + "_copies")
+    shutil.rmtree(cp, ignore_errors=True)
+    os.makedirs(cp)
+    odir = os.path.join(w, tag + "_odir", "out")
+    shutil.rmtree(os.path.dirname(odir), ignore_errors=True)
+    r = _run(tag, odir, cfg, cfg.get("r0", False), copy_to=cp)
+    if r["rc"] != 0 or r["res"] is None:
+        raise RuntimeError(f"reference run failed rc={r['rc']} {r['exc']} {r['err'][-300:]}")
+    n = cfg["n"]
+    pk = {i: open(os.path.join(cp, f"{i}.last.pkl"), "rb").read() for i in range(1, n + 1)}
+    ms, prev = {}, b""
+    for i in range(1, n + 1):
+        cur = open(os.path.join(cp, f"{i}.minisanity.txt"), "rb").read()
+        ms[i] = cur[len(prev):]
+        prev = cur
+    r.update(pickles=pk, msgs=ms)
+    _REF[key] = r
+    return r
+
+
+def _status(path, ref):
+    if not os.path.exists(path):
+        return "absent"
+    b = open(path, "rb").read()
+    if not b:
+        return "empty"
+    for i, p in ref["pickles"].items():
+        if b == p:
+            return f"complete:{i}"
+    if any(p.startswith(b) for p in ref["pickles"].values()):
+        return "partial"
+    return "garbage"
+
+
+def _tokens(path, ref):
+    if not os.path.exists(path):
+        return "absent"
+    b = open(path, "rb").read()
+    out, pos, msgs = [], 0, ref["msgs"]
+    while pos < len(b):
+        hit = [i for i, m in msgs.items() if b.startswith(m, pos)]
+        if hit:
+            out.append(str(hit[0]))
+            pos += len(msgs[hit[0]])
+            continue
+        # partial message: up to the next position where a complete message starts (or EOF)
+        nxt = len(b)
+        for q in range(pos + 1, len(b)):
+            if any(b.startswith(m, q) for m in msgs.values()):
+                nxt = q
+                break
+        piece = b[pos:nxt]
+        out.append("~" if any(m.startswith(piece) and m != piece for m in msgs.values()) else "?")
+        pos = nxt
+    return out
+
+
+def _files(odir, ref):
+    return {"last.pkl": _status(os.path.join(odir, "last.pkl"), ref),
+            "last.pkl.tmp": _status(os.path.join(odir, "last.pkl.tmp"), ref),
+            "minisanity.txt": _tokens(os.path.join(odir, "minisanity.txt"), ref)}
+
+
+def _model_files(mf):
+    """model statuses: 'partial:i' -> 'partial' (the real bytes cannot tell which iteration a short prefix belongs to)"""
+    return {k: (v.split(":")[0] if isinstance(v, str) and v.startswith("partial") else v) for k, v in mf.items()}
+
+
+def _real_kill(pos, ops):
+    """model position {coarse, off, len} -> kill spec on a real op list whose coarse view equals the model's"""
+    if pos == "end":
+        return None
+    c, off, ln = pos["coarse"], pos["off"], pos["len"]
+    # real indices of coarse op c
+    groups, last = [], None
+    for idx, ev in enumerate(ops):
+        key = (ev["op"], ev["path"]) if ev["op"] == "write" else None
+        if key is not None and key == last:
+            groups[-1].append(idx)
+        else:
+            groups.append([idx])
+        last = key
+    if c >= len(groups):
+        return None
+    g = groups[c]
+    if off == 0:
+        return dict(at=g[0], when="before")
+    total = sum(ops[i]["n"] for i in g)
+    target = max(1, min(total - 1, (total * off) // ln))
+    acc = 0
+    for i in g:
+        n = ops[i]["n"]
+        if target < acc + n:
+            if target == acc:
+                return dict(at=i, when="before")
+            return dict(at=i, when="partial", frac=[target - acc, n])
+        acc += n
+    return dict(at=g[-1], when="after")
+
+
+def _scenario(sid, cfg, kills_real, ref, model=None):
+    """run the real scenario: successive runs killed at kills_real[j] (real coordinates, or model positions if `model`
+    is given — then the op list of the reference run is used to translate), then an unkilled resume.
+    -> dict(stages=[…], final=…, problems=[…])"""
+    w = _work()
+    odir = os.path.join(w, f"s{sid}", "out")
+    shutil.rmtree(os.path.dirname(odir), ignore_errors=True)
+    os.makedirs(os.path.dirname(odir))
+    stages, resume = [], bool(cfg.get("r0", False))
+    for j, kill in enumerate(kills_real):
+        r = _run(f"s{sid}_k{j}", odir, cfg, resume, kill=kill)
+        stages.append(dict(rc=r["rc"], exc=r["exc"], files=_files(odir, ref) if os.path.isdir(odir) else None,
+                           coarse=F.coarse(r["ops"], drop_noop_mkdir=False), updates=None, killed=r["killed"], kill=kill))
+        resume = True
+        if r["rc"] not in (0, F.EXIT_KILLED):
+            break
+    r = _run(f"s{sid}_fin", odir, cfg, True)
+    final = dict(rc=r["rc"], exc=r["exc"], res=r["res"], coarse=F.coarse(r["ops"], drop_noop_mkdir=False),
+                 files=_files(odir, ref) if os.path.isdir(odir) else None,
+                 reads=sorted({q["path"] for q in r["queries"]}), err=r["err"][-300:])
+    shutil.rmtree(os.path.dirname(odir), ignore_errors=True)
+    return dict(stages=stages, final=final)
+
+
+class Infra(Exception):
+    pass
+
+
+def _judge(cfg, kills_real, sc, ref):
+    """the property on the real code: the unkilled resume finishes and returns what the uninterrupted run returned"""
+    fin = sc["final"]
+    if fin["rc"] == -9 or any(st["rc"] == -9 for st in sc["stages"]):
+        raise Infra("worker process could not be run (timeout / fork server failure)")
+    where = "; ".join(f"{(st['killed'] or {}).get('killed', 'not killed')}" for st in sc["stages"])
+    for st in sc["stages"]:
+        if st["rc"] not in (0, F.EXIT_KILLED):
+            e = (st["exc"] or {}).get("error", f"rc={st['rc']}")
+            return (f"run with resume=True raised {e} after an earlier kill ({where}): resuming is impossible",
+                    dict(driver="re.optimize_kl", phase="resume", error=e, site=(st["exc"] or {}).get("site", "")))
+    if fin["rc"] != 0 or fin["res"] is None:
+        e = (fin["exc"] or {}).get("error", f"rc={fin['rc']}")
+        return (f"resume=True after kill [{where}] raised {e}: resuming is impossible",
+                dict(driver="re.optimize_kl", phase="resume", error=e, site=(fin["exc"] or {}).get("site", "")))
+    if fin["res"]["sha"] != ref["res"]["sha"] or fin["res"]["nit"] != ref["res"]["nit"]:
+        return (f"resume=True after kill [{where}] finished with different (samples, state) than the uninterrupted run "
+                f"(nit {fin['res']['nit']} vs {ref['res']['nit']}, leaves equal: {fin['res']['leaves'] == ref['res']['leaves']})",
+                dict(driver="re.optimize_kl", phase="result", error="different-result"))
+    if fin["files"]["last.pkl"] != f"complete:{cfg['n']}":
+        return (f"after the resumed run last.pkl is {fin['files']['last.pkl']}, not the final state",
+                dict(driver="re.optimize_kl", phase="files", error="last.pkl"))
+    return None
+
+
+def oracle(case):
+    """case = {cfg: {...}, kills: [ {at, when, frac?}, … ]} in real op coordinates. Property on the real code only."""
+    if "kills" not in case:
+        return None
+    cfg = case["cfg"]
+    ref = _reference(cfg)
+    sc = _scenario("o" + hashlib.sha1(json.dumps(case, sort_keys=True).encode()).hexdigest()[:8], cfg, case["kills"], ref)
+    try:
+        return _judge(cfg, case["kills"], sc, ref)
+    except Infra:
+        return None
+
+
+def shrink(case):
+    ks = case["kills"]
+    if len(ks) > 1:
+        for j in range(len(ks)):
+            yield dict(case, kills=[ks[j]])
+    for j, k in enumerate(ks):
+        if k.get("when") == "partial":
+            yield dict(case, kills=ks[:j] + [dict(at=k["at"], when="before")] + ks[j + 1:])
+
+
+def _configs(ctx):
+    seed = ctx.rng.randrange(1000)
+    cfgs = [dict(n=3, seed=seed, n_samples=1, sample_mode="nonlinear_resample", r0=False)]
+    if not ctx.quick:
+        cfgs += [dict(n=3, seed=seed + 1, n_samples=2, sample_mode="linear_resample", r0=True),
+                 dict(n=2, seed=seed + 2, n_samples=0, sample_mode="nonlinear_resample", r0=False),
+                 dict(n=4, seed=seed + 3, n_samples=1, sample_mode="nonlinear_sample", r0=True)]
+    return cfgs
+
+
+def run(ctx):
+    workers = int(os.environ.get("VERIF_WORKERS", "8"))
+    for cfg in _configs(ctx):
+        _run_cfg(ctx, cfg, workers)
+
+
+def _run_cfg(ctx, cfg, workers):
+    n, r0 = cfg["n"], cfg["r0"]
+    ref = _reference(cfg)
+    # (1) the op sequence of the real uninterrupted run is the model's (atomic = repaired protocol)
+    mo = ctx.model(DRIVER, [dict(op="ops", proto="atomic", n=n, resume=r0), dict(op="ops", proto="inplace", n=n, resume=r0)])
+    real_coarse = F.coarse(ref["ops"], drop_noop_mkdir=False)
+    ctx.traces_validated += 1
+    case0 = dict(op="ops", cfg=cfg)
+    if not ctx.compare(case0, dict(coarse=real_coarse), dict(coarse=mo[0]["coarse"]),
+                       note="op sequence of the real uninterrupted run vs model (atomic protocol)"
+                            + (" — the real sequence equals the model of the IN-PLACE protocol"
+                               if real_coarse == mo[1]["coarse"] else "")):
+        proto = "inplace" if real_coarse == mo[1]["coarse"] else None
+    else:
+        proto = "atomic"
+    ctx.stat(f"real-protocol={proto}")
+    if ref["res"]["updates"] != n or ref["res"]["nit"] != n:
+        ctx.disagree(case0, ref["res"], dict(updates=n, nit=n), "uninterrupted run: number of updates / nit")
+    if proto is None:
+        # unknown protocol: explore crash points directly in real coordinates
+        kills = [[dict(at=k, when="before")] for k in range(len(ref["ops"]) + 1)]
+        kills += [[dict(at=k, when="partial", frac=[1, 2])] for k, ev in enumerate(ref["ops"]) if ev["op"] == "write"]
+        res = _pool().map(lambda a: (a[1], _scenario(f"u{a[0]}", cfg, a[1], ref)), list(enumerate(kills)))
+        for ks, sc in res:
+            ctx.case(dict(cfg=cfg, kills=ks))
+            j = _judge(cfg, ks, sc, ref)
+            if j:
+                ctx.counterexample(dict(cfg=cfg, kills=ks), *j)
+        return
+    nfine = mo[0 if proto == "atomic" else 1]["fine"]
+    # (2) kill points in model coordinates
+    single = list(range(nfine + 1))
+    if ctx.quick:
+        # stratified: every point of the second loop pass, every third elsewhere, first and last
+        per = (nfine - (3 if not r0 else 1)) // n
+        lo = nfine - per * (n - 1)
+        keep = set(range(lo, lo + per + 1)) | {0, 2, lo - per + 5, lo - per + 7, nfine - 1, nfine}
+        single = sorted(k for k in keep if 0 <= k <= nfine)
+    scen = [[k] for k in single]
+    ndouble = ctx.n(2, 24)
+    for _ in range(ndouble):
+        k1 = ctx.rng.randrange(1, nfine)
+        scen.append([k1, ctx.rng.randrange(0, 14)])
+    sims = ctx.model(DRIVER, [dict(op="sim", proto=proto, n=n, r0=r0, kills=ks) for ks in scen])
+    jobs = []
+    for sid, (ks, sim) in enumerate(zip(scen, sims)):
+        # translate model positions to real kills; stage 1 uses the reference op list; later stages use the op list the
+        # model predicts for the resumed run (1 real write per model write group is checked below)
+        kills_real = []
+        for j, st in enumerate(sim["stages"]):
+            if "pos" not in st:
+                break
+            if j == 0:
+                kr = _real_kill(st["pos"], ref["ops"])
+            else:
+                pos = st["pos"]
+                kr = None if pos == "end" else (
+                    dict(at=pos["coarse"], when="before") if pos["off"] == 0
+                    else dict(at=pos["coarse"], when="partial", frac=[pos["off"], pos["len"]]))
+            kills_real.append(kr or dict(at=10 ** 6, when="before"))
+        jobs.append((sid, ks, sim, kills_real))
+    single_write = all(ev["op"] != "write" or i == 0 or ref["ops"][i - 1]["op"] != "write"
+                       for i, ev in enumerate(ref["ops"]))
+    if not single_write:
+        ctx.notes.append("a dump used several write() calls; later-stage kill positions assume one write per dump")
+    results = _pool().map(lambda jb: _scenario(f"{cfg['seed']}_{jb[0]}", cfg, jb[3], ref), jobs)
+    infra = 0
+    for (sid, ks, sim, kills_real), sc in zip(jobs, results):
+        case = dict(cfg=cfg, kills_model=ks, kills=kills_real)
+        if sc["final"]["rc"] == -9 or any(st["rc"] == -9 for st in sc["stages"]):
+            infra += 1
+            continue
+        inside = any(0 < k for k in ks) and ks[0] < nfine
+        for j, st in enumerate(sim["stages"]):
+            pos = st.get("pos")
+            ctx.stat("kill:" + ("end" if pos == "end" else ("mid-write" if pos and pos["off"] else "op-boundary")))
+        ctx.stat(f"stages={len(ks)}")
+        # correspondence: directory after every kill, resumed-from iteration, op sequences, final files
+        impl = dict(stages=[dict(files=st["files"], coarse=st["coarse"]) for st in sc["stages"]],
+                    final=dict(ok=sc["final"]["rc"] == 0,
+                               updates=(sc["final"]["res"] or {}).get("updates"),
+                               state=(sc["final"]["res"] or {}).get("nit"),
+                               coarse=sc["final"]["coarse"] if sc["final"]["rc"] == 0 else None,
+                               files=sc["final"]["files"] if sc["final"]["rc"] == 0 else None))
+        mfin = sim["final"]
+        modl = dict(stages=[dict(files=_model_files(st["files"]), coarse=st["coarse"]) for st in sim["stages"] if "files" in st],
+                    final=dict(ok=mfin["ok"], updates=mfin.get("updates"), state=mfin.get("state"),
+                               coarse=mfin.get("coarse"), files=_model_files(mfin["files"]) if mfin.get("files") else None))
+        ctx.compare(case, impl, modl, note="directory after each kill / resumed run: real vs model", nontrivial=inside)
+        ctx.traces_validated += len(sc["stages"]) + 1
+        if sc["final"]["rc"] == 0 and not set(sc["final"]["reads"]) <= {"last.pkl", "."}:
+            ctx.disagree(case, dict(reads=sc["final"]["reads"]), dict(reads=["last.pkl"]),
+                         "read-set of the resumed run is larger than the model's load()")
+        j = _judge(cfg, kills_real, sc, ref)
+        if j:
+            ctx.counterexample(dict(cfg=cfg, kills=kills_real), *j)
+    if infra:
+        ctx.notes.append(f"{infra} scenario(s) skipped: worker infrastructure failure (timeout)")
+        ctx.stat("skipped-infra", infra)
+        if infra * 5 > len(jobs):
+            from core import leanrun
+            raise leanrun.InfraError("too many worker failures")
+    ctx.extra["crash_points_model"] = nfine + 1
+    ctx.extra["crash_points_run"] = len(scen)
+    ctx.extra["exhaustive"] = bool(not ctx.quick)
+
+
+def search(ctx):
+    """targeted: the witness of inplace_not_crash_safe — kill right after the truncating open of last.pkl / inside the dump"""
+    cfg = dict(n=2, seed=0, n_samples=1, sample_mode="nonlinear_resample", r0=False)
+    ref = _reference(cfg)
+    for k, ev in enumerate(ref["ops"]):
+        if ev["op"] == "write" and ev["path"].startswith("last.pkl"):
+            for kill in (dict(at=k, when="before"), dict(at=k, when="partial", frac=[1, 2])):
+                case = dict(cfg=cfg, kills=[kill])
+                r = oracle(case)
+                if r:
+                    ctx.counterexample(case, *r)
+                    return
